@@ -6677,6 +6677,49 @@ let rec cs_poll_steps fuel s c =
      | Some s' -> cs_poll_steps f s' c
      | None -> s)
 
+(** val cs_got : state0 -> nat -> nat **)
+
+let cs_got s c =
+  match get s c with
+  | Some cs -> cs.cgot
+  | None -> O
+
+(** val cs_poll_stream_steps : nat -> state0 -> nat -> state0 **)
+
+let rec cs_poll_stream_steps fuel s c =
+  match fuel with
+  | O -> s
+  | S f ->
+    (match cons_step cs_ho cs_K s c with
+     | Some s' ->
+       if Nat.ltb (cs_got s c) (cs_got s' c)
+       then s'
+       else cs_poll_stream_steps f s' c
+     | None -> s)
+
+(** val cs_is_stream : state0 -> nat -> bool **)
+
+let cs_is_stream s c =
+  match get s c with
+  | Some cs -> (match cs.ckind with
+                | Unary -> false
+                | Stream -> true)
+  | None -> false
+
+(** val cs_poll_stream : state0 -> nat -> state0 **)
+
+let cs_poll_stream s c =
+  let s1 =
+    cs_poll_stream_steps (S (S (S (S (S (S (S (S (S (S (S (S (S (S (S (S (S
+      (S (S (S (S (S (S (S (S (S (S (S (S (S (S (S (S (S (S (S (S (S (S (S
+      O)))))))))))))))))))))))))))))))))))))))) s c
+  in
+  if Nat.ltb (cs_got s c) (cs_got s1 c)
+  then s1
+  else (match del_exit cs_ho s1 c with
+        | Some s2 -> s2
+        | None -> s1)
+
 (** val cs_poll : state0 -> nat -> state0 **)
 
 let cs_poll s c =
@@ -7004,50 +7047,45 @@ let cs_op st ts =
                                    | _ :: _ -> (st, cs_bad)))))
                     else if is_kw (String ((Ascii (false, false, false, true,
                               true, false, true, false)), (String ((Ascii
-                              (true, false, false, false, true, false, true,
+                              (true, true, false, false, true, false, true,
                               false)), EmptyString)))) o
                          then (match args with
                                | [] -> (st, cs_bad)
                                | id :: l ->
                                  (match l with
-                                  | [] ->
-                                    (match p_nat id with
-                                     | Some i ->
-                                       (match cs_lookup i st.cs_ids with
-                                        | Some c ->
-                                          let s' = cs_poll s c in
-                                          ({ cs_st = s'; cs_ids =
-                                          (if cs_finished s' c
-                                           then cs_forget i st.cs_ids
-                                           else st.cs_ids) },
-                                          (cs_phase_line s' c))
-                                        | None ->
-                                          (st,
-                                            (join_sp
-                                              ((kw (String ((Ascii (false,
-                                                 false, false, true, true,
-                                                 false, true, false)),
-                                                 (String ((Ascii (true,
-                                                 false, false, false, true,
-                                                 false, true, false)),
-                                                 EmptyString))))) :: (
-                                              (kw (String ((Ascii (true,
-                                                true, true, false, false,
-                                                true, true, false)), (String
-                                                ((Ascii (true, true, true,
-                                                true, false, true, true,
-                                                false)), (String ((Ascii
-                                                (false, true, true, true,
-                                                false, true, true, false)),
-                                                (String ((Ascii (true, false,
-                                                true, false, false, true,
-                                                true, false)),
-                                                EmptyString))))))))) :: [])))))
-                                     | None -> (st, cs_bad))
-                                  | _ :: _ -> (st, cs_bad)))
+                                  | [] -> (st, cs_bad)
+                                  | _ :: l0 ->
+                                    (match l0 with
+                                     | [] -> (st, cs_bad)
+                                     | mx :: l1 ->
+                                       (match l1 with
+                                        | [] ->
+                                          (match p_nat id with
+                                           | Some i ->
+                                             (match p_nat mx with
+                                              | Some m ->
+                                                let c = length s.conss in
+                                                (match step0 cs_ho cs_K s
+                                                         (LArrive (Stream,
+                                                         (N.to_nat m))) with
+                                                 | Some s' ->
+                                                   ({ cs_st = s'; cs_ids =
+                                                     ((i, c) :: st.cs_ids) },
+                                                     (kw (String ((Ascii
+                                                       (false, false, false,
+                                                       true, true, false,
+                                                       true, false)), (String
+                                                       ((Ascii (true, true,
+                                                       false, false, true,
+                                                       false, true, false)),
+                                                       EmptyString))))))
+                                                 | None -> (st, cs_bad))
+                                              | None -> (st, cs_bad))
+                                           | None -> (st, cs_bad))
+                                        | _ :: _ -> (st, cs_bad)))))
                          else if is_kw (String ((Ascii (false, false, false,
                                    true, true, false, true, false)), (String
-                                   ((Ascii (false, false, true, false, false,
+                                   ((Ascii (true, false, false, false, true,
                                    false, true, false)), EmptyString)))) o
                               then (match args with
                                     | [] -> (st, cs_bad)
@@ -7058,19 +7096,72 @@ let cs_op st ts =
                                           | Some i ->
                                             (match cs_lookup i st.cs_ids with
                                              | Some c ->
-                                               (match cancel cs_ho s c with
-                                                | Some s' ->
-                                                  ({ cs_st = s'; cs_ids =
-                                                    (cs_forget i st.cs_ids) },
-                                                    (kw (String ((Ascii
-                                                      (false, false, false,
-                                                      true, true, false,
-                                                      true, false)), (String
-                                                      ((Ascii (false, false,
-                                                      true, false, false,
-                                                      false, true, false)),
-                                                      EmptyString))))))
-                                                | None -> (st, cs_bad))
+                                               if cs_is_stream s c
+                                               then let s' =
+                                                      cs_poll_stream s c
+                                                    in
+                                                    ({ cs_st = s'; cs_ids =
+                                                    (if cs_finished s' c
+                                                     then cs_forget i
+                                                            st.cs_ids
+                                                     else st.cs_ids) },
+                                                    (if Nat.ltb (cs_got s c)
+                                                          (cs_got s' c)
+                                                     then join_sp
+                                                            ((kw (String
+                                                               ((Ascii
+                                                               (false, false,
+                                                               false, true,
+                                                               true, false,
+                                                               true, false)),
+                                                               (String
+                                                               ((Ascii (true,
+                                                               false, false,
+                                                               false, true,
+                                                               false, true,
+                                                               false)),
+                                                               EmptyString))))) :: (
+                                                            (kw (String
+                                                              ((Ascii (false,
+                                                              true, false,
+                                                              false, false,
+                                                              true, true,
+                                                              false)),
+                                                              (String ((Ascii
+                                                              (true, false,
+                                                              false, false,
+                                                              false, true,
+                                                              true, false)),
+                                                              (String ((Ascii
+                                                              (false, false,
+                                                              true, false,
+                                                              true, true,
+                                                              true, false)),
+                                                              (String ((Ascii
+                                                              (true, true,
+                                                              false, false,
+                                                              false, true,
+                                                              true, false)),
+                                                              (String ((Ascii
+                                                              (false, false,
+                                                              false, true,
+                                                              false, true,
+                                                              true, false)),
+                                                              EmptyString))))))))))) :: (
+                                                            (r_num
+                                                              (N.of_nat
+                                                                (sub
+                                                                  (cs_got s'
+                                                                    c)
+                                                                  (cs_got s c)))) :: [])))
+                                                     else cs_phase_line s' c))
+                                               else let s' = cs_poll s c in
+                                                    ({ cs_st = s'; cs_ids =
+                                                    (if cs_finished s' c
+                                                     then cs_forget i
+                                                            st.cs_ids
+                                                     else st.cs_ids) },
+                                                    (cs_phase_line s' c))
                                              | None ->
                                                (st,
                                                  (join_sp
@@ -7078,8 +7169,8 @@ let cs_op st ts =
                                                       (false, false, false,
                                                       true, true, false,
                                                       true, false)), (String
-                                                      ((Ascii (false, false,
-                                                      true, false, false,
+                                                      ((Ascii (true, false,
+                                                      false, false, true,
                                                       false, true, false)),
                                                       EmptyString))))) :: (
                                                    (kw (String ((Ascii (true,
@@ -7101,82 +7192,159 @@ let cs_op st ts =
                               else if is_kw (String ((Ascii (false, false,
                                         false, true, true, false, true,
                                         false)), (String ((Ascii (false,
-                                        true, true, false, false, false,
+                                        false, true, false, false, false,
                                         true, false)), EmptyString)))) o
                                    then (match args with
                                          | [] -> (st, cs_bad)
-                                         | _ :: l ->
+                                         | id :: l ->
                                            (match l with
-                                            | [] -> (st, cs_bad)
-                                            | n0 :: l0 ->
-                                              (match l0 with
-                                               | [] ->
-                                                 (match p_nat n0 with
-                                                  | Some k ->
-                                                    ({ cs_st =
-                                                      (cs_fill (N.to_nat k) s);
-                                                      cs_ids = st.cs_ids },
-                                                      (kw (String ((Ascii
-                                                        (false, false, false,
-                                                        true, true, false,
-                                                        true, false)),
-                                                        (String ((Ascii
-                                                        (false, true, true,
-                                                        false, false, false,
-                                                        true, false)),
-                                                        EmptyString))))))
-                                                  | None -> (st, cs_bad))
-                                               | _ :: _ -> (st, cs_bad))))
+                                            | [] ->
+                                              (match p_nat id with
+                                               | Some i ->
+                                                 (match cs_lookup i st.cs_ids with
+                                                  | Some c ->
+                                                    (match cancel cs_ho s c with
+                                                     | Some s' ->
+                                                       ({ cs_st = s';
+                                                         cs_ids =
+                                                         (cs_forget i
+                                                           st.cs_ids) },
+                                                         (kw (String ((Ascii
+                                                           (false, false,
+                                                           false, true, true,
+                                                           false, true,
+                                                           false)), (String
+                                                           ((Ascii (false,
+                                                           false, true,
+                                                           false, false,
+                                                           false, true,
+                                                           false)),
+                                                           EmptyString))))))
+                                                     | None -> (st, cs_bad))
+                                                  | None ->
+                                                    (st,
+                                                      (join_sp
+                                                        ((kw (String ((Ascii
+                                                           (false, false,
+                                                           false, true, true,
+                                                           false, true,
+                                                           false)), (String
+                                                           ((Ascii (false,
+                                                           false, true,
+                                                           false, false,
+                                                           false, true,
+                                                           false)),
+                                                           EmptyString))))) :: (
+                                                        (kw (String ((Ascii
+                                                          (true, true, true,
+                                                          false, false, true,
+                                                          true, false)),
+                                                          (String ((Ascii
+                                                          (true, true, true,
+                                                          true, false, true,
+                                                          true, false)),
+                                                          (String ((Ascii
+                                                          (false, true, true,
+                                                          true, false, true,
+                                                          true, false)),
+                                                          (String ((Ascii
+                                                          (true, false, true,
+                                                          false, false, true,
+                                                          true, false)),
+                                                          EmptyString))))))))) :: [])))))
+                                               | None -> (st, cs_bad))
+                                            | _ :: _ -> (st, cs_bad)))
                                    else if is_kw (String ((Ascii (false,
                                              false, false, true, true, false,
                                              true, false)), (String ((Ascii
-                                             (false, false, true, false,
-                                             true, false, true, false)),
+                                             (false, true, true, false,
+                                             false, false, true, false)),
                                              EmptyString)))) o
-                                        then ({ cs_st = (cs_settle s);
-                                               cs_ids = st.cs_ids },
-                                               (kw (String ((Ascii (false,
-                                                 false, false, true, true,
-                                                 false, true, false)),
-                                                 (String ((Ascii (false,
-                                                 false, true, false, true,
-                                                 false, true, false)),
-                                                 EmptyString))))))
+                                        then (match args with
+                                              | [] -> (st, cs_bad)
+                                              | _ :: l ->
+                                                (match l with
+                                                 | [] -> (st, cs_bad)
+                                                 | n0 :: l0 ->
+                                                   (match l0 with
+                                                    | [] ->
+                                                      (match p_nat n0 with
+                                                       | Some k ->
+                                                         ({ cs_st =
+                                                           (cs_fill
+                                                             (N.to_nat k) s);
+                                                           cs_ids =
+                                                           st.cs_ids },
+                                                           (kw (String
+                                                             ((Ascii (false,
+                                                             false, false,
+                                                             true, true,
+                                                             false, true,
+                                                             false)), (String
+                                                             ((Ascii (false,
+                                                             true, true,
+                                                             false, false,
+                                                             false, true,
+                                                             false)),
+                                                             EmptyString))))))
+                                                       | None -> (st, cs_bad))
+                                                    | _ :: _ -> (st, cs_bad))))
                                         else if is_kw (String ((Ascii (false,
-                                                  false, false, false, true,
+                                                  false, false, true, true,
                                                   false, true, false)),
-                                                  (String ((Ascii (true,
+                                                  (String ((Ascii (false,
                                                   false, true, false, true,
                                                   false, true, false)),
-                                                  (String ((Ascii (false,
-                                                  true, false, false, false,
-                                                  false, true, false)),
-                                                  (String ((Ascii (false,
-                                                  true, true, true, false,
-                                                  false, true, false)),
-                                                  EmptyString)))))))) o
-                                             then (match args with
-                                                   | [] -> (st, cs_bad)
-                                                   | _ :: l ->
-                                                     (match l with
-                                                      | [] -> (st, cs_bad)
-                                                      | n0 :: l0 ->
-                                                        (match l0 with
-                                                         | [] -> (st, cs_bad)
-                                                         | _ :: l1 ->
-                                                           (match l1 with
-                                                            | [] ->
-                                                              (match 
-                                                               p_nat n0 with
-                                                               | Some k ->
-                                                                 ({ cs_st =
-                                                                   (cs_request
+                                                  EmptyString)))) o
+                                             then ({ cs_st = (cs_settle s);
+                                                    cs_ids = st.cs_ids },
+                                                    (kw (String ((Ascii
+                                                      (false, false, false,
+                                                      true, true, false,
+                                                      true, false)), (String
+                                                      ((Ascii (false, false,
+                                                      true, false, true,
+                                                      false, true, false)),
+                                                      EmptyString))))))
+                                             else if is_kw (String ((Ascii
+                                                       (false, false, false,
+                                                       false, true, false,
+                                                       true, false)), (String
+                                                       ((Ascii (true, false,
+                                                       true, false, true,
+                                                       false, true, false)),
+                                                       (String ((Ascii
+                                                       (false, true, false,
+                                                       false, false, false,
+                                                       true, false)), (String
+                                                       ((Ascii (false, true,
+                                                       true, true, false,
+                                                       false, true, false)),
+                                                       EmptyString)))))))) o
+                                                  then (match args with
+                                                        | [] -> (st, cs_bad)
+                                                        | _ :: l ->
+                                                          (match l with
+                                                           | [] ->
+                                                             (st, cs_bad)
+                                                           | n0 :: l0 ->
+                                                             (match l0 with
+                                                              | [] ->
+                                                                (st, cs_bad)
+                                                              | _ :: l1 ->
+                                                                (match l1 with
+                                                                 | [] ->
+                                                                   (match 
+                                                                    p_nat n0 with
+                                                                    | Some k ->
+                                                                    ({ cs_st =
+                                                                    (cs_request
                                                                     (RPost
                                                                     (N.to_nat
                                                                     k)) s);
-                                                                   cs_ids =
-                                                                   st.cs_ids },
-                                                                   (kw
+                                                                    cs_ids =
+                                                                    st.cs_ids },
+                                                                    (kw
                                                                     (String
                                                                     ((Ascii
                                                                     (false,
@@ -7208,111 +7376,75 @@ let cs_op st ts =
                                                                     true,
                                                                     false)),
                                                                     EmptyString))))))))
-                                                               | None ->
-                                                                 (st, cs_bad))
-                                                            | _ :: _ ->
-                                                              (st, cs_bad)))))
-                                             else if is_kw (String ((Ascii
-                                                       (true, false, false,
-                                                       false, false, false,
-                                                       true, false)), (String
-                                                       ((Ascii (false, false,
-                                                       true, false, false,
-                                                       false, true, false)),
-                                                       (String ((Ascii
-                                                       (false, true, true,
-                                                       false, true, false,
-                                                       true, false)),
-                                                       EmptyString)))))) o
-                                                  then let s1 = cs_settle s in
-                                                       let s2 =
-                                                         if Nat.eqb s1.leased
-                                                              O
-                                                         then s1
-                                                         else (match 
-                                                               step0 cs_ho
-                                                                 cs_K s1
-                                                                 (LExpire
-                                                                 s1.leased) with
-                                                               | Some x -> x
-                                                               | None -> s1)
-                                                       in
-                                                       ({ cs_st =
-                                                       (cs_settle s2);
-                                                       cs_ids = st.cs_ids },
-                                                       (kw (String ((Ascii
-                                                         (true, false, false,
-                                                         false, false, false,
-                                                         true, false)),
-                                                         (String ((Ascii
-                                                         (false, false, true,
-                                                         false, false, false,
-                                                         true, false)),
-                                                         (String ((Ascii
-                                                         (false, true, true,
-                                                         false, true, false,
-                                                         true, false)),
-                                                         EmptyString))))))))
+                                                                    | None ->
+                                                                    (st,
+                                                                    cs_bad))
+                                                                 | _ :: _ ->
+                                                                   (st,
+                                                                    cs_bad)))))
                                                   else if is_kw (String
+                                                            ((Ascii (true,
+                                                            false, false,
+                                                            false, false,
+                                                            false, true,
+                                                            false)), (String
                                                             ((Ascii (false,
                                                             false, true,
                                                             false, false,
                                                             false, true,
                                                             false)), (String
-                                                            ((Ascii (true,
-                                                            true, false,
+                                                            ((Ascii (false,
+                                                            true, true,
                                                             false, true,
                                                             false, true,
                                                             false)),
-                                                            EmptyString)))) o
-                                                       then ({ cs_st =
-                                                              (cs_request
-                                                                RDelete s);
-                                                              cs_ids =
-                                                              st.cs_ids },
-                                                              (kw (String
-                                                                ((Ascii
-                                                                (false,
-                                                                false, true,
-                                                                false, false,
-                                                                false, true,
-                                                                false)),
-                                                                (String
-                                                                ((Ascii
-                                                                (true, true,
-                                                                false, false,
-                                                                true, false,
-                                                                true,
-                                                                false)),
-                                                                EmptyString))))))
+                                                            EmptyString))))))
+                                                            o
+                                                       then let s1 =
+                                                              cs_settle s
+                                                            in
+                                                            let s2 =
+                                                              if Nat.eqb
+                                                                   s1.leased O
+                                                              then s1
+                                                              else (match 
+                                                                    step0
+                                                                    cs_ho
+                                                                    cs_K s1
+                                                                    (LExpire
+                                                                    s1.leased) with
+                                                                    | Some x ->
+                                                                    x
+                                                                    | None ->
+                                                                    s1)
+                                                            in
+                                                            ({ cs_st =
+                                                            (cs_settle s2);
+                                                            cs_ids =
+                                                            st.cs_ids },
+                                                            (kw (String
+                                                              ((Ascii (true,
+                                                              false, false,
+                                                              false, false,
+                                                              false, true,
+                                                              false)),
+                                                              (String ((Ascii
+                                                              (false, false,
+                                                              true, false,
+                                                              false, false,
+                                                              true, false)),
+                                                              (String ((Ascii
+                                                              (false, true,
+                                                              true, false,
+                                                              true, false,
+                                                              true, false)),
+                                                              EmptyString))))))))
                                                        else if is_kw (String
                                                                  ((Ascii
-                                                                 (true, true,
-                                                                 false,
-                                                                 false, true,
-                                                                 false, true,
-                                                                 false)),
-                                                                 (String
-                                                                 ((Ascii
                                                                  (false,
                                                                  false, true,
-                                                                 false, true,
-                                                                 false, true,
-                                                                 false)),
-                                                                 (String
-                                                                 ((Ascii
-                                                                 (true,
                                                                  false,
                                                                  false,
-                                                                 false,
-                                                                 false,
-                                                                 false, true,
-                                                                 false)),
-                                                                 (String
-                                                                 ((Ascii
-                                                                 (false,
-                                                                 false, true,
-                                                                 false, true,
                                                                  false, true,
                                                                  false)),
                                                                  (String
@@ -7322,16 +7454,99 @@ let cs_op st ts =
                                                                  false, true,
                                                                  false, true,
                                                                  false)),
-                                                                 EmptyString))))))))))
+                                                                 EmptyString))))
                                                                  o
-                                                            then let s1 =
-                                                                   cs_settle s
-                                                                 in
-                                                                 ({ cs_st =
-                                                                 s1; cs_ids =
-                                                                 st.cs_ids },
-                                                                 (if s1.deleted
-                                                                  then 
+                                                            then ({ cs_st =
+                                                                   (cs_request
+                                                                    RDelete s);
+                                                                   cs_ids =
+                                                                   st.cs_ids },
+                                                                   (kw
+                                                                    (String
+                                                                    ((Ascii
+                                                                    (false,
+                                                                    false,
+                                                                    true,
+                                                                    false,
+                                                                    false,
+                                                                    false,
+                                                                    true,
+                                                                    false)),
+                                                                    (String
+                                                                    ((Ascii
+                                                                    (true,
+                                                                    true,
+                                                                    false,
+                                                                    false,
+                                                                    true,
+                                                                    false,
+                                                                    true,
+                                                                    false)),
+                                                                    EmptyString))))))
+                                                            else if is_kw
+                                                                    (String
+                                                                    ((Ascii
+                                                                    (true,
+                                                                    true,
+                                                                    false,
+                                                                    false,
+                                                                    true,
+                                                                    false,
+                                                                    true,
+                                                                    false)),
+                                                                    (String
+                                                                    ((Ascii
+                                                                    (false,
+                                                                    false,
+                                                                    true,
+                                                                    false,
+                                                                    true,
+                                                                    false,
+                                                                    true,
+                                                                    false)),
+                                                                    (String
+                                                                    ((Ascii
+                                                                    (true,
+                                                                    false,
+                                                                    false,
+                                                                    false,
+                                                                    false,
+                                                                    false,
+                                                                    true,
+                                                                    false)),
+                                                                    (String
+                                                                    ((Ascii
+                                                                    (false,
+                                                                    false,
+                                                                    true,
+                                                                    false,
+                                                                    true,
+                                                                    false,
+                                                                    true,
+                                                                    false)),
+                                                                    (String
+                                                                    ((Ascii
+                                                                    (true,
+                                                                    true,
+                                                                    false,
+                                                                    false,
+                                                                    true,
+                                                                    false,
+                                                                    true,
+                                                                    false)),
+                                                                    EmptyString))))))))))
+                                                                    o
+                                                                 then 
+                                                                   let s1 =
+                                                                    cs_settle
+                                                                    s
+                                                                   in
+                                                                   ({ cs_st =
+                                                                   s1;
+                                                                   cs_ids =
+                                                                   st.cs_ids },
+                                                                   (if s1.deleted
+                                                                    then 
                                                                     join_sp
                                                                     ((kw
                                                                     (String
@@ -7397,7 +7612,7 @@ let cs_op st ts =
                                                                     false,
                                                                     false)),
                                                                     EmptyString))) :: []))
-                                                                  else 
+                                                                    else 
                                                                     join_sp
                                                                     ((kw
                                                                     (String
@@ -7469,7 +7684,9 @@ let cs_op st ts =
                                                                     (r_num
                                                                     (N.of_nat
                                                                     s1.backlog)) :: []))))))
-                                                            else (st, cs_bad))
+                                                                 else 
+                                                                   (st,
+                                                                    cs_bad))
 
 (** val cs_lines : cs_state -> str list list -> str list **)
 
